@@ -12,7 +12,7 @@ THOROUGH = dict(worlds=256, runs=1200, seconds=30)
 RULE = ("seeded blackbox-free circuits x node n (input / internal / output / functionally constant) x endpoint "
         "subsets; distinct = canonical net + node + endpoints; non-trivial = n's function depends on >= 2 startpoints")
 PROBES = ["sp=1", "sp=2", "sp=3", "sp=4", "sp=5", "sp=7", "sp=8", "sensitivity_0", "n_is_input", "n_is_output",
-          "unsat_steps>=2", "sensitize_none", "sensitize_witness", "endpoints_subset", "influence", "sensitivity", "influence_list_form"]
+          "unsat_steps>=2", "sensitize_none", "sensitize_witness", "endpoints_subset", "influence", "sensitivity", "influence_list_form", "same_endpoints_object_for_all_calls"]
 ASSUMPTIONS = ["<= 11 startpoints in the cone of n for the transforms and sensitivity(), <= 6 for influence / avg_sensitivity", "exact mode only (approx=False); the supergates=True variant of "
                "influence is not judged"]
 
@@ -48,7 +48,10 @@ def gen(rng, tier):
     eps = None
     if rng.random() < 0.4 and outs:
         eps = rng.sample(outs, rng.randint(1, len(outs)))
-    return {"net": net, "nodes": picks, "endpoints": eps, "assume": rng.random() < 0.3,
+    if eps and len(picks) < 3 and rng.random() < 0.6:
+        # several nodes analysed against the same endpoint selection; nodes whose cone reaches only some of them
+        picks += rng.sample(names, min(len(names), 2))
+    return {"net": net, "nodes": picks, "endpoints": eps, "assume": rng.random() < 0.3, "eps_as_set": rng.random() < 0.6,
             "peer": {"seed": rng.getrandbits(32), "policy": rng.choice(peers.SOLVER_POLICIES)}}
 
 
@@ -71,6 +74,7 @@ def run(case, ctx):
     outs = ref.outputs(net)
     nontrivial = False
     multi_expect = {}
+    shared_eps = None
     for n in case["nodes"]:
         if n not in nodes:
             continue
@@ -196,8 +200,12 @@ def run(case, ctx):
             want = 0
             for e in E:
                 want |= tt[e] ^ tt2[e]
+            if eps and shared_eps is None:
+                # one endpoints object for every call of the run, as a caller looping over nodes passes it
+                shared_eps = (set if case.get("eps_as_set") else list)(E)
+                ctx.probe("same_endpoints_object_for_all_calls")
             m = ctx.call("C11.sensitization_transform_raises", sig, cg.tx.sensitization_transform, c, n,
-                         endpoints=list(E) if eps else None)
+                         endpoints=shared_eps if eps else None)
             ms = ref.snapshot(m)
             ctx.log("sens_tx", n, state_digest(m))
             if ref.is_cyclic(ms) or ref.wiring_violations(ms, undriven=True):
